@@ -23,6 +23,7 @@ pub mod c19;
 pub mod c20;
 pub mod common;
 pub mod selftest;
+pub mod textgen;
 
 pub fn dispatch(prop: &str, ctx: &mut Ctx) -> bool {
     match prop {
